@@ -49,3 +49,25 @@ Theorem C03_terminal_never_connects : forall s i,
   terminal (state_of s i) = true -> consider_connect s i = (s, []).
 Proof. exact consider_connect_terminal_silent. Qed.
 Print Assumptions C03_terminal_never_connects.
+
+(* The collector's verdict as a function of the status code (Status.v): a reply is at most one of success,
+   keep-the-data, disconnect, restart; an invalid license is a restart class; the class the lifecycle model
+   consumes is disconnect exactly for 410 and restart exactly for 401 / 409. *)
+From Verif Require Import Status.
+Theorem C03_status_classes : forall code,
+  let k := classify code in
+  ((rc_success k = true -> rc_disconnect k = false /\ rc_restart k = false /\ rc_save k = false) /\
+   (rc_save k = true -> rc_disconnect k = false /\ rc_restart k = false) /\
+   (rc_disconnect k = true -> rc_restart k = false) /\
+   (rc_invalid_license k = true -> rc_restart k = true)) /\
+  (rc_success k = false ->
+   match fail_of_code code with
+   | FRetry => rc_save k = true
+   | F409 => code = 409%N /\ rc_restart k = true /\ rc_invalid_license k = false
+   | F401 => code = 401%N /\ rc_restart k = true /\ rc_invalid_license k = true
+   | F410 => code = 410%N /\ rc_disconnect k = true
+   | FTransport => code = 0%N /\ harvest_action_of k = 0%N
+   | FOther => harvest_action_of k = 0%N
+   end).
+Proof. intros code. exact (conj (classes_exclusive code) (fail_of_code_class code)). Qed.
+Print Assumptions C03_status_classes.
